@@ -29,11 +29,12 @@ const (
 )
 
 type Loc struct {
-	Heap string
-	Idx  string
-	Sub  string // second index for array-typed fields ("" = none)
-	Addr string // flat address term of the location
-	Typ  types.Type
+	Heap  string
+	Idx   string
+	Sub   string // second index for array-typed fields ("" = none)
+	Addr  string // flat address term of the location
+	Typ   types.Type
+	Whole bool // ghost global scalar: the heap itself is the value
 }
 
 type Val struct {
@@ -163,7 +164,7 @@ type State struct {
 	dry     *dryRun
 	vc      *FuncVC
 	axioms  []axiomTerm // assumed lazily: added to an obligation only when relevant to its goal
-	quiet   bool // spec translation: assumptions produced by loads are dropped
+	quiet   bool        // spec translation: assumptions produced by loads are dropped
 }
 
 type axiomTerm struct {
